@@ -33,14 +33,17 @@ Judge(r) ==      \* <<set of rejected points (0 = wrong number of rows), class o
              bad == IF lenbad(r.n) THEN {0}
                     ELSE IF \E m \in M : badfor(m) = {} THEN {} ELSE badfor(m0)
              k0 == SetMinOr0(bad)
-         IN <<bad, IF k0 = 0 THEN "rows" ELSE IF IbiValid(r.tg, r.cu, r.pot.f, k0) THEN "valid"
-                   ELSE IF k0 = m0 - 1 THEN "corner" ELSE "continued", FALSE>>
+         IN <<bad, IF k0 = 0 THEN "rows"
+                   ELSE (IF IbiValid(r.tg, r.cu, r.pot.f, k0) THEN "valid" ELSE IF k0 = m0 - 1 THEN "corner" ELSE "continued")
+                        \o (IF of[k0] # (IF IbiValid(r.tg, r.cu, r.pot.f, k0) THEN "i" ELSE "o") THEN ":flag" ELSE ":value"), FALSE>>
     [] r.op = "dist_boltzmann_invert" ->
          LET ref == BiFirstDef(r.e, r.mk, 1)
              bad == IF lenbad(r.n) THEN {0} ELSE {k \in 1..r.n : ~BiAt(r.e, r.c, r.mk, oy, of, ref, k)}
              k0 == SetMinOr0(bad)
              algo == BoltzmannInvert(r.e, r.c, r.mk)
-         IN <<bad, IF k0 = 0 THEN "rows" ELSE IF BiDef(r.e, r.mk, k0) THEN "defined" ELSE "undefined",
+         IN <<bad, IF k0 = 0 THEN "rows"
+                   ELSE IF BiDef(r.e, r.mk, k0) THEN (IF of[k0] # "i" THEN "defined:flag" ELSE "defined:value")
+                   ELSE "undefined:flag",
               ~lenbad(r.n) /\ \E k \in algo.free : RSub(oy[k], oy[ref]) # RSub(algo.y[k], algo.y[ref])>>
     [] r.op = "table_integrate" ->
          LET g == IntPre(T(r.t), r.x0, r.h, r.mode, r.kt)
